@@ -178,7 +178,12 @@ impl<'a, W: Read + Write> QueryResultWriter<'a, W> {
 
 impl<'a, W: Read + Write> Drop for QueryResultWriter<'a, W> {
     fn drop(&mut self) {
-        self.finalize(false).unwrap();
+        let res = self.finalize(false);
+        // a transport error is remembered by the connection and returned by its next flush, so
+        // it must not (and, while already unwinding, cannot safely) bring the thread down here
+        if !self.writer.has_failed() && !std::thread::panicking() {
+            res.unwrap();
+        }
     }
 }
 
@@ -398,6 +403,11 @@ impl<'a, W: Read + Write + 'a> RowWriter<'a, W> {
 
 impl<'a, W: Read + Write + 'a> Drop for RowWriter<'a, W> {
     fn drop(&mut self) {
-        self.finish_inner(true).unwrap();
+        let res = self.finish_inner(true);
+        let failed = self.result.as_ref().map_or(false, |r| r.writer.has_failed());
+        // see Drop for QueryResultWriter
+        if !failed && !std::thread::panicking() {
+            res.unwrap();
+        }
     }
 }
